@@ -53,9 +53,14 @@ def run_broker(c):
     dh = StubDataHandler(c['quotes'])
     start = ts(cfg['start'])
     try:
-        broker = SimulatedBroker(start, SimulatedExchange(ts(cfg['exch_start']) if cfg.get('exch_start') is not None else start), dh, account_id='acct',
-                                 base_currency=cfg['base'], initial_funds=cfg['funds'],
-                                 fee_model=mk_fee(cfg['fee']))
+        exch = SimulatedExchange(ts(cfg['exch_start']) if cfg.get('exch_start') is not None else start)
+        if cfg.get('fee_late'):
+            # built with the default (zero) fee model; the public fee_model attribute is set afterwards, before any operation
+            broker = SimulatedBroker(start, exch, dh, account_id='acct', base_currency=cfg['base'], initial_funds=cfg['funds'])
+            broker.fee_model = mk_fee(cfg['fee'])
+        else:
+            broker = SimulatedBroker(start, exch, dh, account_id='acct', base_currency=cfg['base'], initial_funds=cfg['funds'],
+                                     fee_model=mk_fee(cfg['fee']))
     except Exception as e:
         return {'init': errname(e)}
     fills = []
@@ -93,6 +98,8 @@ def run_broker(c):
         for op in c['ops']:
             del fills[:]
             k = op[0]
+            if len(op) > 1 and isinstance(op[1], list):
+                op = [op[0], int(op[1][1])] + list(op[2:])          # the id as an int
             try:
                 r = None
                 if k == 'subacct':
